@@ -3,7 +3,7 @@
 set -u
 cd "$(dirname "$0")/.."
 mkdir -p .build evidence replays
-ids=$(python3 -c "import json;print(' '.join(json.load(open('checks.json')).keys()))")
+ids=$(ls checks.d | sed "s/\.json$//")
 fail=0
 # build sequentially per package group (go build itself is parallel)
 for id in $ids; do
